@@ -195,6 +195,8 @@ open Gotlcp.Model.ParsersLoop Gotlcp.Lemmas.ParsersLoop
 theorem C09_facts_stream :
     5 ≤ limitsT.hdr ∧ limitsT.maxPlaintext ≤ limitsT.maxCiphertext ∧
     Facts.tlcp.recRetryGuard = true ∧ Facts.tlcp.recLenGuard = true ∧
+    -- the retry counter is reset only by a NON-EMPTY record that is neither an alert nor a ChangeCipherSpec
+    Facts.tlcp.recResetCond = ["typ != recordTypeAlert", "typ != recordTypeChangeCipherSpec", "len(data) > 0"] ∧
     Facts.tlcp.hsFrameGuards = ["for c.hand.Len() < 4", "if n > maxHandshake", "for c.hand.Len() < 4+n", "next c.hand.Next(4 + n)"] ∧
     -- F8: handshake records are refused once the handshake is complete
     limitsT.refusePostHs = true := by
@@ -249,7 +251,7 @@ theorem C09_mem_tlcp (lib : Lib) (chunk : Nat) (hseg : ∀ m, lib.seg m ≤ chun
     (run limitsT lib (St.init wire) ops).raw.length ≤ Facts.tlcp.recordHeaderLen + Facts.tlcp.maxCiphertext + chunk := by
   have f := C09_facts_stream
   have hmp : limitsT.maxPlaintext ≤ limitsT.maxCiphertext := f.2.1
-  have inv := run_inv limitsT lib f.1 f.2.2.2.2.2 chunk
+  have inv := run_inv limitsT lib f.1 f.2.2.2.2.2.2 chunk
     (4 + limitsT.maxHandshake + limitsT.maxPlaintext) (limitsT.hdr + limitsT.maxCiphertext + chunk)
     hseg h1 (by omega) (by omega) ops (St.init wire) ⟨by simp [St.init], by simp [St.init]⟩
   obtain ⟨ih, ir⟩ := inv
@@ -290,6 +292,7 @@ open Gotlcp.Model.ParsersLoopD Gotlcp.Lemmas.ParsersLoopD
 theorem C09_facts_dtlcp :
     13 ≤ limitsD.hdr ∧ 12 ≤ limitsD.hsHdr ∧ 1 ≤ limitsD.maxHandshake ∧
     Facts.dtlcp.recRetryGuard = true ∧ Facts.dtlcp.fragReadsGuard = true ∧
+    Facts.dtlcp.recResetCond = ["typ != recordTypeAlert", "typ != recordTypeChangeCipherSpec", "len(data) > 0"] ∧
     Facts.dtlcp.hsFrameGuards = ["if fragmentReads > maxHandshakeFragments", "for c.handBuf.Len() < dtlcpHeaderLen",
       "if bodyLen > maxHandshake", "if fragOff+fragLen > bodyLen", "for c.handBuf.Len() < dtlcpHeaderLen+fragLen",
       "next c.handBuf.Next(dtlcpHeaderLen + fragLen)"] ∧
@@ -356,7 +359,7 @@ theorem C09_mem_dtlcp (lib : LibD) (hdec : DecLen lib) (dgrams : List Bytes) (op
     s.hand.length ≤ Facts.dtlcp.dtlcpHeaderLen + Facts.dtlcp.maxHandshake + Facts.dtlcp.maxCiphertext + Facts.dtlcp.recordHeaderLen ∧
     s.raw.length ≤ Facts.dtlcp.maxCiphertext + Facts.dtlcp.recordHeaderLen := by
   have f := C09_facts_dtlcp
-  have inv := runD_inv limitsD lib f.1 f.2.1 hdec f.2.2.2.2.2.2.1 f.2.2.2.2.2.2.2
+  have inv := runD_inv limitsD lib f.1 f.2.1 hdec f.2.2.2.2.2.2.2.1 f.2.2.2.2.2.2.2.2
     (limitsD.hsHdr + limitsD.maxHandshake + (limitsD.maxCiphertext + limitsD.hdr)) limitsD.maxHandshake
     (by omega) (Nat.le_refl _) f.2.2.1 ops (StD.init dgrams) 0
     ⟨by simp [StD.init], by simp [StD.init], by simp [StD.init], by intro b hb; simp [StD.init] at hb⟩
